@@ -422,4 +422,88 @@ def c17(tier):
     return v.finish()
 
 
-TABLE = {"C03": c03, "C17": c17, "C10": c10, "C11": c11, "C12": c12, "C13": c13, "C14": c14}
+def c15(tier):
+    import scope
+    v = Verdict("C15", tier)
+    cases = tlc_cases(v, "intended/ScopeT.cfg" if tier == "thorough" else "intended/ScopeQ.cfg", module="MCScope.tla", tag="SCOPE")
+    # the universe as one layout, for every configuration
+    allids = sorted({e for c in cases for e in c["layout"]})
+    seen = set()
+    extra = []
+    for c in cases:
+        key = (tuple(c["exts"]), c["sd"], tuple(c["inv"]))
+        if key in seen:
+            continue
+        seen.add(key)
+        exts = {"rs"} if c["exts"] == ["default"] else set(c["exts"])
+        extmap = {"src/a.rs": "rs", "src/sub/b.rs": "rs", "src/sub/deep/c.rs": "rs", "src/upper.RS": "RS", "src/long.rsx": "rsx",
+                  "src/back.rs.bak": "bak", "src/t.txt": "txt", "src/a.b.rs": "rs", "src/dir.rs/inner.rs": "rs"}
+        extra.append(dict(c, layout=allids, expected=sorted(e for e in allids if extmap.get(e) in exts)))
+    if tier != "thorough":
+        rnd = random.Random(common.seed())
+        rnd.shuffle(cases)
+        cases = cases[:6000]
+    cases = extra + cases
+    binary = common.build_breadlog()
+    jobs = [(binary, c) for c in cases]
+    with multiprocessing.get_context("fork").Pool(max(2, min(common.NCPU - 2, 14))) as pool:
+        results = pool.map(scope.run_case, jobs, chunksize=16)
+    for c, (problems, obs) in zip(cases, results):
+        v.evaluated(json.dumps(c, sort_keys=True))
+        v.cov["traces_validated_against_impl"] += 1
+        if len(c["layout"]) > 1:
+            v.sample({"case": c, "observed": obs})
+        for prop, text in problems:
+            oo = v.cov.setdefault("mismatches_by_property", {})
+            oo[prop] = oo.get(prop, 0) + 1
+            if prop != "C15":
+                continue
+            v.violation({"check": "Scope", "what": text[:30], "exts": ",".join(c["exts"]), "sd": c["sd"], "inv": "/".join(c["inv"])},
+                        "C15: %s  (layout %s, extensions %s, source_dir %s, invocation %s)" % (text, c["layout"], c["exts"], c["sd"], c["inv"]),
+                        {"case": c, "observed": obs})
+    v.cov["rule"] = ("every layout of <= N optional entries from a 19-entry universe (nesting, look-alike extensions, a directory named "
+                     "*.rs, symlinks to files and directories inside and outside) x 5 extension lists x 3 spellings of source_dir x 7 "
+                     "(current directory, config path spelling) pairs, plus the whole universe at once; real directories and symlinks")
+    v.cov["exhaustive"] = (tier == "thorough")
+    return v.finish()
+
+
+def c09(tier):
+    import compile as cp
+    v = Verdict("C09", tier)
+    cases = tlc_cases(v, "intended/StmtCompileKv.cfg") + tlc_cases(v, "intended/StmtCompileLayout.cfg")
+    r = run_tlc("MCStmt.tla", "asfound/StmtInsertPoint.cfg", workers=4, coverage=False)
+    if r.violated not in ("RoundTrip", "StillAccepted"):
+        raise ToolError("as-found insertion point not refuted by TLC: %s" % r.violated)
+    v.cov.setdefault("expected_counterexamples", []).append({"cfg": "asfound/StmtInsertPoint.cfg", "violated": r.violated})
+    cases = [c for c in cases if cp.compilable(c)]
+    rnd = random.Random(common.seed() + 9)
+    n = 2500 if tier == "thorough" else 350
+    binary = common.build_breadlog()
+    for mode in ("unstructured", "structured"):
+        cs = [c for c in cases if c["mode"] == mode]
+        rnd.shuffle(cs)
+        # make sure the interesting classes are present whatever the seed
+        must = [c for c in cs if c["s"]["target"] != "none" and c["outcome"] == "missing"][:60]
+        chosen = must + cs[:n]
+        problems, stats = cp.run_program(binary, chosen, mode == "structured")
+        v.cov["traces_validated_against_impl"] += 1
+        v.cov.setdefault("programs", []).append({"mode": mode, "statements": stats.get("statements"), "edited": stats.get("edited")})
+        v.sample({"mode": mode, "record_before": stats.get("sample_before"), "record_after": stats.get("sample_after")})
+        for c in chosen:
+            v.evaluated((mode, json.dumps(c, sort_keys=True)))
+        for c, text in problems:
+            sig = {"check": "BehaviourPreserved", "structured": mode == "structured", "what": text[:40]}
+            if c is not None:
+                sig.update({"target": c["s"]["target"] != "none", "msg": c["s"]["msg"], "layout": c["s"]["layout"], "context": c["s"]["context"],
+                            "dir": c["s"]["dir"], "kvs": ",".join(c["s"]["kvs"])})
+            v.violation(sig, "C09: %s%s" % (text, ("  case %s" % json.dumps(c["s"])) if c else ""), {"case": c, "mode": mode})
+    v.cov["rule"] = ("statements sampled (seeded) from the compile-safe part of the LogStmt feature space (targets, 0-2 key-values with "
+                     "capture modifiers and shorthand, message classes, trailing format arguments, layouts, contexts, directives), one "
+                     "function per statement in a generated crate with a capturing logger; compiled and run before and after the edit; "
+                     "records compared per statement")
+    v.assumptions += ["only capture modifiers that build with log's `kv` feature offline are executed (:?, :debug, :%, :display)"]
+    return v.finish()
+
+
+TABLE = {"C09": c09, "C15": c15, "C03": c03, "C17": c17, "C10": c10, "C11": c11, "C12": c12, "C13": c13, "C14": c14}
